@@ -1634,7 +1634,7 @@ def explore(ctx: runner.Ctx):
     if ctx.shard == 0:
         for case in DOC_EXAMPLES:
             check_case(ctx, case)
-    total = ctx.budget(2000, 120000)
+    total = ctx.budget(3200, 120000)
     probes = max(2, total // 40)
     ctx.given(st_case(), lambda case: check_case(ctx, case), total - 2 * probes)
     ctx.given(st_case(probe="skeleton"), lambda case: check_case(ctx, case), probes, seed_offset=1)
